@@ -580,6 +580,9 @@ def check(run):
                     c2 = dict(cfg)
                     c2["wrap"] = "bundlefile"
                     plan.append((pi, e, c2))
+                if e in FS_SRC_ENTRIES and p["variant"] != "unknown-type" and "allow_custom" not in cfg:
+                    # legacy flat <type>/<id>.json next to a versioned <type>/<other id>/<file>.json (backward-compatibility pass)
+                    plan.append((pi, e, dict(cfg, wrap="flatfile")))
                 if e in FS_SINK_ENTRIES and p["variant"] in ("witness", "zero-uuid") and "allow_custom" not in cfg:
                     c2 = dict(cfg)
                     c2["wrap"] = "list"
@@ -769,6 +772,9 @@ def check(run):
         run.coverage["dispatch_first_disagreements"] = dis[:8]
         run.broken.append(Broken("correspondence", "generated call-site table vs entry points", {"first": dis[:5]}))
 
+    # ---- history independence: the answer to (content, version) does not depend on what was asked before ------------
+    order_oracle(run, probes[:n_plain])
+
     # ---- library output handed back without a version -------------------------------------
     own_cases = []
     for p in probes:
@@ -844,6 +850,79 @@ def check(run):
         "the shapes of `emitted` (Props/C14.v) are what the serialiser emits; checked by handing real serialisations of every "
         "class back through the entry points",
     ]
+
+
+ORDER_ENTRIES = ["parsing.parse", "memory.MemoryStore.add", "filesystem.FileSystemSource.get"]
+
+
+def fresh_uuid(rng, nibble):
+    b = bytearray(rng.getrandbits(8) for _ in range(16))
+    b[6] = (b[6] & 0x0F) | (nibble << 4)
+    b[8] = (b[8] & 0x3F) | 0x80
+    return str(uuid.UUID(bytes=bytes(b)))
+
+
+def order_cases(run, probes):
+    cases = []
+    for p in probes:
+        d = p["data"]
+        if p["variant"] != "base" or p["kind"] == "bundle" or not (isinstance(d.get("id"), str) and "--" in d["id"]):
+            continue
+        if not all(ch.isalnum() or ch in "-_" for ch in d["id"] + str(d.get("type"))):
+            continue
+        for nib in (1, 4, 5):
+            ua, ub = fresh_uuid(run.rng, nib), fresh_uuid(run.rng, nib)
+            seen, fresh = with_uuid(d, ua), with_uuid(d, ub)
+            for first, second in (("2.1", "2.0"), ("2.0", "2.1")):
+                for e in ORDER_ENTRIES:
+                    cases.append({"op": "order", "how": "id", "cid": p["cid"], "entry": e, "first": first, "second": second, "ac": True,
+                                  "prime": seen, "seen": seen, "fresh": fresh, "ids": [ua, ub]})
+            if "created" in d and "created_by_ref" not in d or isinstance(d.get("created_by_ref"), str):
+                ident = {"type": "identity", "id": "identity--" + ua, "name": "n", "identity_class": "individual",
+                         "created": "2020-01-01T00:00:00.000Z", "modified": "2020-01-01T00:00:00.000Z"}
+                uc = fresh_uuid(run.rng, 4)
+                base = with_uuid(d, uc)
+                for first, second in (("2.1", "2.0"), ("2.0", "2.1")):
+                    cases.append({"op": "order", "how": "ref", "cid": p["cid"], "entry": "parsing.parse", "first": first, "second": second,
+                                  "ac": True, "prime": ident, "seen": dict(base, created_by_ref="identity--" + ua),
+                                  "fresh": dict(base, created_by_ref="identity--" + ub), "ids": [ua, ub]})
+    return cases
+
+
+def order_oracle(run, probes):
+    """the same (content, version) question after a different-version question about the same id gets the answer it gets
+    when the id was never seen; a difference is confirmed against a FRESH interpreter before it is reported"""
+    cases = order_cases(run, probes)
+    if run.tier != "thorough":
+        cases = cases[::2]
+    res = common.run_impl("c14_impl", cases)
+    n_diff = 0
+    for c, r in zip(cases, res):
+        run.count({"order": c}, nontrivial=r["prime"][0] != r["fresh"][0] or c["ids"] and c["how"] == "ref")
+        if outcomes_equal(r["after"], r["fresh"]):
+            continue
+        n_diff += 1
+        if n_diff > 12:
+            continue
+        v = order_confirm(c)
+        if v is not None:
+            run.violations.append(v)
+    run.coverage["order_cases"] = len(cases)
+    run.coverage["order_differences"] = n_diff
+
+
+def order_confirm(c):
+    """ask the second question alone in a fresh interpreter; a Violation if the in-sequence answer differs from it"""
+    alone = common.run_impl("c14_impl", [dict(c, first=c["second"], prime=c["fresh"])], procs=1)[0]     # new process
+    seq = common.run_impl("c14_impl", [c], procs=1)[0]                                                   # new process
+    if outcomes_equal(seq["after"], alone["after"]):
+        return None
+    return Violation(
+        "%s(<%s>, version=%r) -> %s when the same %s was first parsed with version=%r (-> %s) in the same interpreter; "
+        "asked first in a fresh interpreter it -> %s"
+        % (c["entry"], c["cid"], c["second"], short(seq["after"]), "id" if c["how"] == "id" else "referenced id", c["first"],
+           short(seq["prime"]), short(alone["after"])),
+        {"kind": "order", "case": c}, finding=None)
 
 
 def short_cls(c):
@@ -1033,6 +1112,18 @@ def replay(payload):
             print("  the content was interpreted as version %s, not the version named (%s)" % (out[-1], v))
             bad = True
         if bad:
+            print("VIOLATION property=C14 replay=(given)")
+            return 1
+        print("no violation on this input")
+        return 0
+    if r.get("kind") == "order":
+        c = r["case"]
+        alone = common.run_impl("c14_impl", [dict(c, first=c["second"], prime=c["fresh"])], procs=1)[0]
+        seq = common.run_impl("c14_impl", [c], procs=1)[0]
+        print("replay %s on %s: first parse(.., version=%r) -> %s; then %s(.., version=%r) -> %s" % (
+            c["how"], json.dumps(c["seen"])[:160], c["first"], short(seq["prime"]), c["entry"], c["second"], short(seq["after"])))
+        print("  the second question asked first, in a fresh interpreter: %s" % short(alone["after"]))
+        if not outcomes_equal(seq["after"], alone["after"]):
             print("VIOLATION property=C14 replay=(given)")
             return 1
         print("no violation on this input")
